@@ -8,7 +8,7 @@ invariance and roll equivariance, all on the implementation's own grids.
 
 Exact stream: inputs on a dyadic lattice chosen so that every float operation of the real code is exact
 (bit budget below), hence model and implementation must agree bit for bit.  Tolerance stream: generic
-floats, compared under  tol = 64 * eps * (sum |w| + sum |grid0|)  with eps the coarser machine epsilon of
+floats, compared under the per-cell bound of `tol_of` (derived from the forward-error theorems) with u the unit roundoff of the coarser of
 the position and grid dtypes.
 """
 import json
@@ -39,6 +39,21 @@ THEOREMS = [
     'AbacusVerif.Mass.perm_invariant',
     'AbacusVerif.Mass.axis_roll_equivariant',
     'AbacusVerif.Mass.roll_equivariant',
+    'AbacusVerif.Mass.roll_equivariant_list',
+    'AbacusVerif.Mass.roll_equivariant_grid',
+    'AbacusVerif.Mass.roll_equivariant_zero',
+    'AbacusVerif.Mass.get_field_positions',
+    'AbacusVerif.Mass.get_field_no_fault',
+    'AbacusVerif.Mass.get_field_spec',
+    'AbacusVerif.Mass.get_field_total_unit',
+    'AbacusVerif.Mass.get_field_additive',
+    'AbacusVerif.Mass.get_field_roll',
+    'AbacusVerif.Mass.coord_forward_error',
+    'AbacusVerif.Mass.axis_weights_forward_error',
+    'AbacusVerif.Mass.cic_axis_weights_forward_error',
+    'AbacusVerif.Mass.poly_vs_kernel',
+    'AbacusVerif.Mass.term_forward_error',
+    'AbacusVerif.Mass.sum_forward_error',
     'AbacusVerif.Mass.wrap_inplace_spec',
     'AbacusVerif.Mass.wrapInplace_spec',
 ]
@@ -52,8 +67,10 @@ RULE = ('one case = one particle set (positions, weights) x grid shape x box x o
 TRUSTED = ['exact stream: the dyadic lattice is chosen so that every float operation of the kernels is exact '
            '(6a+3+b+c+log2 N <= mantissa bits for TSC, 3a+b+c+log2 N for CIC), so float32/float64 results must equal '
            'the model\'s rationals exactly',
-           'tolerance stream: |impl - model| <= 64 eps (sum|w| + sum|grid0|) per cell; float evaluation of the '
-           'polynomial weights on non-dyadic inputs is not modelled',
+           'tolerance stream: |impl - model| <= the per-cell bound that coord_forward_error, axis_weights_forward_error, '
+           'poly_vs_kernel, term_forward_error and sum_forward_error give under the standard rounding model '
+           '(each operation exact times 1+delta, |delta| <= unit roundoff); that the hardware and numba/LLVM fastmath '
+           'obey this model (no more roundings than the source has operations) is assumed',
            'integer widths (int16 TSC indices, int32/uint32 CIC) not modelled: grids wider than 2^15 out of scope']
 ASSUMPTIONS = ['numba round() is round-half-even; negative indices wrap once; py_func raises IndexError exactly where '
                'the compiled kernel would write out of bounds',
@@ -483,11 +500,38 @@ def gen_fault(ctx, kind):
 # --------------------------------------------------------------------------- checking
 
 def tol_of(case):
-    eps = max(EPS[case['pdt']], EPS[case['ddt']])
-    tot = (len(case['pos']) if case['w'] is None else sum(abs(v) for v in case['w']))
-    if case['grid0'] is not None:
-        tot += sum(abs(v) for v in case['grid0'])
-    return Fr(64 * eps) * fr(max(tot, 1.0))
+    """per-cell bound derived from the forward-error theorems of Props/C06.lean under the standard model
+    (every rounded operation = exact result times 1+delta, |delta| <= u, u the unit roundoff of the coarser dtype):
+
+      eta  = 31/10 u max|p|  (coord_forward_error)  + 2 u (gmax+1) for an in-place wrap / the CIC `pos + d`
+      eps  = 6/5 eta + 3 u   (axis_weights_forward_error, cic_axis_weights_forward_error) + 3/2 eta^2 (poly_vs_kernel)
+      term = (4 eps + 5 u) |W| + u |W| for the cast of W   (term_forward_error)
+      acc  = ((1+u)^m - 1) (computed terms + supplied cell)  (sum_forward_error), m = `+=` per cell
+    tol = sum_n term_n + acc.  (The bound 64 eps (sum|w| + sum|grid0|) used before it was chosen by hand.)"""
+    u = Fr(max(EPS[case['pdt']], EPS[case['ddt']])) / 2 * (1 + Fr(1, 2 ** 20))
+    shape = case['shape']
+    axes = range(2) if shape[2] == 1 else range(3)
+    box, off = fr(case['box']), fr(case['off'])
+    pmax = Fr(1)
+    if box != 0:
+        for p in case['pos']:
+            for i in axes:
+                pmax = max(pmax, abs((fr(p[i]) + off) * shape[i] / box))
+    gmax = max(shape[i] for i in axes)
+    eta = Fr(31, 10) * u * pmax
+    if case.get('wrap') or case.get('gf'):
+        eta += 2 * u * (gmax + 1)
+    assert eta <= Fr(1, 10) and u <= Fr(1, 100)
+    eps = Fr(6, 5) * eta + 3 * u + Fr(3, 2) * eta * eta
+    mass = Fr(len(case['pos'])) if case['w'] is None else sum(abs(fr(v)) for v in case['w'])
+    g0 = Fr(0) if case['grid0'] is None else max(abs(fr(v)) for v in case['grid0'])
+    alias = 1
+    for i in axes:
+        alias *= 3 if shape[i] == 1 else 2 if shape[i] == 2 else 1
+    m = len(case['pos']) * alias + 1
+    term = (4 * eps + 6 * u) * mass
+    acc = ((1 + u) ** m - 1) * (mass * (1 + 4 * eps + 6 * u) + g0)
+    return term + acc + Fr(1, 10 ** 300)
 
 
 def float_coord(case, x, g, off=None):
@@ -865,7 +909,7 @@ def run(ctx):
         run_cases(ctx, impl, cases)
     finally:
         numba.set_num_threads(numba.config.NUMBA_NUM_THREADS)
-    ctx.extra['streams'] = {'exact': 'dyadic lattice, bit-for-bit', 'tol': '64 eps (sum|w| + sum|grid0|)',
+    ctx.extra['streams'] = {'exact': 'dyadic lattice, bit-for-bit', 'tol': 'theorem-derived per-cell bound (tol_of)',
                             'fault': 'py_func IndexError/ZeroDivisionError vs model oob/rejected'}
 
 
